@@ -37,6 +37,7 @@ type WorldOpts struct {
 	AllowNoID            bool
 	NoIDPct              int  // percentage of builds without the injected _id field (default 5)
 	FewTerms             bool // small vocabulary: dense postings lists
+	MoreDV               bool // bias towards doc-value fields
 }
 
 func (o *WorldOpts) defaults() {
@@ -82,6 +83,9 @@ func genSchema(t *rapid.T, o *WorldOpts) *schema {
 	}
 	s.fields = s.fields[:w]
 	dvMask := rapid.IntRange(0, 1<<uint(len(s.fields))-1).Draw(t, "dvmask")
+	if o.MoreDV && rapid.IntRange(0, 1).Draw(t, "alldv") == 0 {
+		dvMask = 1<<uint(len(s.fields)) - 1
+	}
 	for i, f := range s.fields {
 		if dvMask&(1<<uint(i)) != 0 {
 			s.dv[f] = true
